@@ -277,7 +277,7 @@ Section NodeModel.
         | Some f =>
           nmod (fun n => set_fb n f) ;;;
           if negb (valid_z (to_node (hdr f))) || negb (valid_z (from_node (hdr f)))
-          then net_update k ret_val
+          then net_update k 0       (* frame_buf holds the discarded frame: nothing to report for it *)
           else
             n <- nget ;;
             let t := match message_type (hdr f) with IntT z => z | StrT _ => 0 end in
